@@ -487,7 +487,24 @@ func frameBlocked(p *Program, cs *ContractSet) []*FrameResult {
 			}
 		}
 		if !ranged {
-			bad = append(bad, "BlockedAddresses does not range over maccPerms")
+			// the other accepted shape: an explicit list that names both escrow accounts
+			listed := map[string]bool{}
+			for _, b := range fn.Blocks {
+				for _, in := range b.Instrs {
+					if mu, ok := in.(*ssa.MapUpdate); ok {
+						if name, ok := traceModuleAddressString(mu.Key); ok {
+							if c, isConst := mu.Value.(*ssa.Const); isConst && c.Value != nil && c.Value.Kind() == constant.Bool && constant.BoolVal(c.Value) {
+								listed[name] = true
+							}
+						}
+					}
+				}
+			}
+			for _, need := range []string{"enterprise", "stream"} {
+				if !listed[need] {
+					bad = append(bad, "BlockedAddresses neither ranges over maccPerms nor lists the "+need+" module account explicitly")
+				}
+			}
 		}
 	}
 	// the bank keeper must be given BlockedAddresses()
